@@ -9,7 +9,7 @@ CHECK = dict(
     ],
     units=[
         dict(name="dnssvc", dir="internal/dnssvc", src="C05/dnssvc", runs=[
-            dict(name="history", run="^TestVerifC05History$", quick=2500, thorough=100000, shards_thorough=10),
+            dict(name="history", run="^TestVerifC05History$", quick=2500, thorough=400000, shards_thorough=12),
         ]),
     ],
 )
